@@ -47,6 +47,7 @@ extern "C" int LLVMFuzzerTestOneInput(const uint8_t *data, size_t size) {
 	Case c(data, size);
 	ec::Config g; ec::DrawFlags f; f.allow_big = false;
 	ec::draw_config(c, g, f);
+	if (size && (data[size - 1] & 7) == 7) g.warm = 1 + ((data[size - 1] >> 3) & 3);   // 1/8 of the cases: the encoder runs on a handle that has just encoded something else
 	Recipe r = draw_recipe(c, 1u << 14, g.lz.dict_size);
 	r.len = draw_len_boundary(c);
 	if (r.kind == RK_LITERAL) r.kind = RK_RANDOM;
